@@ -15,7 +15,7 @@ CONSTANTS
   MaxCtr = 1
   LoadCap = 2
   MaxReq = 2
-  CmdsOf <- C11Two
+  CmdsOf <- C11Two4
   AltFS <- AltFS11
   Export = TRUE
 SPECIFICATION Spec
